@@ -39,6 +39,7 @@ type Profile struct {
 	MaxRestarts int `json:"max_restarts"`
 	DefectPct int   `json:"defect_pct"`
 	Subtree  bool   `json:"subtree"`
+	Script   bool   `json:"script,omitempty"` // start with the scripted cut-tile scenario
 	Steps    int    `json:"steps"`
 }
 
@@ -67,6 +68,11 @@ func MakeProfile(prop string, seed uint64, tier string) *Profile {
 	case "C15":
 		p.Mirror = true
 		p.Conc = 1 + r.Intn(4)
+		p.DefectPct = []int{30, 50}[r.Intn(2)]
+		p.LogSize = []int64{20, 257, 300, 513, 700, 700, 1100, 1100}[r.Intn(8)]
+		p.ForkAt = int64(r.Intn(int(p.LogSize)))
+		p.Reqs = 15 + r.Intn(30)
+		p.Script = p.LogSize >= 300 && r.Chance(1, 3)
 	case "C16":
 		p.Mirror = r.Chance(2, 3)
 		p.Subtree = true
@@ -215,6 +221,9 @@ func (w *World) main(replay []core.Cmd) {
 		w.logs = append(w.logs, newGlog(fmt.Sprintf("log%d.example/x", i), p.LogSize, p.ForkAt, sim.Seed))
 	}
 	w.startWitness()
+	if p.Script {
+		w.scriptCutTile()
+	}
 	ri := 0
 	for sim.Step < p.Steps {
 		synctest.Wait()
@@ -303,7 +312,7 @@ func (w *World) enabled() []core.WCmd {
 		out = append(out, core.WCmd{Cmd: core.Cmd{A: "rel", Op: op.ID, Out: core.OutOK, L: w.drawPlan()}, W: 100})
 		if p.FaultW > 0 {
 			if op.Kind == "body" {
-				out = append(out, core.WCmd{Cmd: core.Cmd{A: "rel", Op: op.ID, Out: "cut", N: int64(r.Intn(4000))}, W: p.FaultW})
+				out = append(out, core.WCmd{Cmd: core.Cmd{A: "rel", Op: op.ID, Out: "cut", N: int64(r.Intn(4000))}, W: p.FaultW * 6})
 			} else {
 				out = append(out, core.WCmd{Cmd: core.Cmd{A: "rel", Op: op.ID, Out: core.OutErrNot}, W: p.FaultW})
 				if op.Mut {
@@ -470,10 +479,16 @@ type segReader struct {
 	// the next segment are delivered and then the body ends.
 	cutExtra int
 	cut      bool
+	// cutAfterSeg >= 1: the body ends by itself after that many package segments
+	cutAfterSeg int
 }
 
 func (r *segReader) Read(p []byte) (int, error) {
 	if len(r.cur) == 0 {
+		if r.cutAfterSeg >= 1 && r.i == 1+r.cutAfterSeg {
+			r.cut = true
+			r.req.truncated = true
+		}
 		if r.cut || r.i >= len(r.segs) {
 			if r.cut {
 				return 0, io.ErrUnexpectedEOF
@@ -540,7 +555,7 @@ var _ = base64.StdEncoding
 
 // serveSync serves a request to completion without scheduling (auto mode).
 func (w *World) serveSync(rq *request) {
-	body := &segReader{w: w, req: rq, segs: rq.segs}
+	body := &segReader{w: w, req: rq, segs: rq.segs, cutAfterSeg: -1}
 	hreq := httptest.NewRequest("POST", "/add-entries", body)
 	hreq.Header.Set("Content-Type", "application/octet-stream")
 	rec := httptest.NewRecorder()
@@ -550,4 +565,71 @@ func (w *World) serveSync(rq *request) {
 	rq.code = rec.Code
 	rq.hdr = rec.Header()
 	rq.resp = rec.Body.Bytes()
+}
+
+// scriptCutTile drives, without scheduling, the history that makes the mirror
+// commit at a size that cuts a tile which was only uploaded wider: a ticket for
+// size n1, the pending checkpoint moved on to n2 in the same tile, a complete
+// upload to n2 whose commit fails, then an empty upload with the old ticket.
+// The serving invariant is checked by the ordinary monitors.
+func (w *World) scriptCutTile() {
+	g := w.logs[0]
+	r := core.NewRand(core.Mix(w.sim.Seed, 0x5c71))
+	tile := int64(r.Intn(int(g.size()/256) + 1))
+	lo := tile*256 + 1
+	hi := min(tile*256+255, g.size())
+	if hi-lo < 2 {
+		return
+	}
+	n1 := lo + int64(r.Intn(int(hi-lo-1)))
+	n2 := n1 + 1 + int64(r.Intn(int(hi-n1)))
+	w.auto = true
+	defer func() { w.auto = false }()
+	do := func(rq *request, path string, body io.ReadCloser, ctype string) {
+		rq.id, rq.g, rq.inc, rq.startStep = len(w.reqs), g, w.inc.n, w.sim.Step
+		w.reqs = append(w.reqs, rq)
+		w.curReq = rq
+		hreq := httptest.NewRequest("POST", path, body)
+		if ctype != "" {
+			hreq.Header.Set("Content-Type", ctype)
+		}
+		rec := httptest.NewRecorder()
+		w.inc.wit.Handler().ServeHTTP(rec, hreq)
+		rq.done, rq.code, rq.hdr, rq.resp = true, rec.Code, rec.Header(), rec.Body.Bytes()
+		w.sim.Logf("script r%d %s -> %d", rq.id, rq.kind, rq.code)
+		w.orc.onResponse(rq)
+	}
+	ckpt := func(old, n int64) *request {
+		rq := &request{kind: "addckpt", branch: 0, old: old, n: n, rec0N: old, rec0Root: g.root(0, old)}
+		body := addCheckpointBody(fmt.Sprintf("old %d", old), g.consistencyProof(0, old, n), g.signedCheckpoint(0, n, g.signer, ""))
+		do(rq, "/add-checkpoint", io.NopCloser(bytes.NewReader(body)), "")
+		return rq
+	}
+	entries := func(start, end int64, ticket []byte, defect string) *request {
+		rq := &request{kind: "addentries", branch: 0, start: start, end: end, defect: defect}
+		rq.segs = g.addEntriesSegments(0, start, end, ticket, -1, "")
+		do(rq, "/add-entries", &segReader{w: w, req: rq, segs: rq.segs, cutAfterSeg: -1}, "application/octet-stream")
+		return rq
+	}
+	if ckpt(0, n1).code != 200 {
+		return
+	}
+	before := len(w.tickets)
+	entries(min(n1, 1), n1, nil, "start-ahead") // start ahead of the frontier (0): 409 with a ticket for n1
+	if len(w.tickets) == before {
+		return
+	}
+	ticket := w.tickets[len(w.tickets)-1]
+	if ticket.n != n1 || ckpt(n1, n2).code != 200 {
+		return
+	}
+	w.failNextMirrorCommit = true
+	up := entries(0, n2, nil, "")
+	up.faulted = true
+	if w.failNextMirrorCommit {
+		w.failNextMirrorCommit = false
+		return
+	}
+	w.sim.Probe("script.cut-tile")
+	entries(n1, n1, ticket.ticket, "ticket-cut")
 }
